@@ -7,6 +7,7 @@ import (
 	"os"
 	"path/filepath"
 	"runtime/debug"
+	"strconv"
 	"strings"
 
 	asv1 "github.com/pingcap/advanced-statefulset/client/apis/apps/v1"
@@ -355,8 +356,21 @@ func runChurn(ctx *Ctx, prop string) *Result {
 		w.DeliverAll()
 		var images, numericImgs []string
 		numeric := map[string]bool{}
+		// images known (for this template) to give a hash label that parses as an int32 - about one template
+		// in 400 does; a third of the cases start with two of them, so that histories with several such
+		// revisions exist (EqualRevision's hash short-cut compares two of them). Confirmed at run time:
+		// churn_known_numeric_images_confirmed counts the ones whose revision really got such a label.
+		known := []string{"img:92246-5", "img:95334-14", "img:95889-21", "img:26571-39", "img:86636-9", "img:38785-14", "img:93640-0", "img:63730-4", "img:27769-28", "img:78686-2", "img:85827-29", "img:60841-31"}
+		var planted []string
+		if i%3 == 0 {
+			a := r.Intn(len(known))
+			planted = []string{known[a], known[(a+1+r.Intn(len(known)-1))%len(known)]}
+		}
 		for k := 0; k < 40; k++ {
 			img := fmt.Sprintf("img:%d-%d", ctx.caseSeed(i)%100000, k)
+			if len(planted) == 2 && (k == 1 || k == 3 || k == 9) {
+				img = planted[(k/3)%2] // first, second, first again (a return to it)
+			}
 			if k%7 == 6 {
 				img = images[r.Intn(len(images))] // back to an earlier template
 				if len(numericImgs) > 0 && r.Intn(2) == 0 {
@@ -397,8 +411,19 @@ func runChurn(ctx *Ctx, prop string) *Result {
 				if h := rev.Labels["controller.kubernetes.io/hash"]; h != "" && strings.Trim(h, "0123456789") == "" && !numeric[rev.Name] {
 					numeric[rev.Name] = true
 					res.Stats["churn_revisions_with_all_digit_hash_label"]++
+					if h, err := strconv.ParseInt(rev.Labels["controller.kubernetes.io/hash"], 10, 32); err == nil && h > 0 {
+						for _, kimg := range planted {
+							if kimg == img {
+								res.Stats["churn_known_numeric_images_confirmed"]++
+							}
+						}
+						res.Stats["churn_revisions_with_int32_hash_label"]++
+					}
 					if cur := w.GetSet("web"); cur != nil && cur.Status.UpdateRevision == rev.Name {
 						numericImgs = append(numericImgs, img)
+						if os.Getenv("CHURN_DEBUG") != "" {
+							fmt.Fprintf(os.Stderr, "CHURN_DEBUG numeric %s %s\n", img, rev.Name)
+						}
 					}
 				}
 			}
